@@ -239,15 +239,22 @@ class Parser(object):
 
     def p_elements(self, p):
         """
-        elements : element COMMA elements
+        elements : list_elements
+        """
+
+        p[0] = p[1]
+
+    def p_list_elements(self, p):
+        """
+        list_elements : element COMMA list_elements
         """
 
         p[0] = [p[1]] + p[3]
 
-    def p_elements_element(self, p):
+    def p_list_elements_element(self, p):
         """
-        elements : element COMMA
-                 | element
+        list_elements : element COMMA
+                      | element
         """
 
         p[0] = [p[1]]
